@@ -48,7 +48,9 @@ import types
 
 from runner import enc, Infra
 
-RULE = ('append/kill: configurations {gzip, plain} x buffer {the real default, 64 bytes} x earlier state {archive absent, '
+RULE = ('the archive NAME is a regular file or (own sweeps: 4 configurations + 2 lives in quick, 16 + 4 in thorough) a '
+        'symbolic link to a file in another directory / a dangling link whose target the first append creates. '
+        'append/kill: configurations {gzip, plain} x buffer {the real default, 64 bytes} x earlier state {archive absent, '
         'empty, 1, 2, 3 records} x record bodies (0 .. 20000 bytes, so the append is 1..n raw writes) x EVERY primitive '
         'index of the fault-free run x {OSError, kill} x partial-write amounts {0, 1, half, all-1, all}; OSError from the '
         'record source at 4 positions; the CLASS of the injected error is a dimension: OSError(ENOSPC), OSError(EIO), '
@@ -57,7 +59,7 @@ RULE = ('append/kill: configurations {gzip, plain} x buffer {the real default, 6
         'NOT I/O errors: KeyboardInterrupt, asyncio.CancelledError, SystemExit, MemoryError, ValueError -- quick: the class '
         'rotates with the primitive index and the variant, so every class meets open, write, close, truncate, unlink; '
         'thorough: every class at every primitive; every single-fault run is extended by a second fault/kill at every later primitive '
-        '(thorough: all of them for bodies <= 200 bytes with no / 2 earlier records, 300 sampled per other configuration; '
+        '(thorough: all of them for empty bodies with no / 2 earlier records, 1200 sampled for 200-byte bodies there, 300 per other configuration; '
         'quick: 100 sampled per small configuration) and a sample of third faults. Single kills are real child processes '
         '(os._exit at the primitive); in quick the kills of multi-fault schedules are simulated in-process and the '
         'simulation is compared with the real kill on every single-kill case. Logging: every single fault (and the '
@@ -546,10 +548,14 @@ class SourceFails:
 class Env:
     """One archive configuration in a scratch directory with a real WARCRecorder."""
 
-    def __init__(self, compress, bufsize):
+    def __init__(self, compress, bufsize, link=False):
         WARCRecorder, WARCRecorderParams, _ = _mods()
-        self.compress, self.bufsize = compress, bufsize
+        self.compress, self.bufsize, self.link = compress, bufsize, link
         self.dir = tempfile.mkdtemp(prefix='c06-', dir=os.environ.get('TMPDIR'))
+        # link: the archive NAME is a symbolic link to a file in another directory (dangling when the archive
+        # does not exist yet: the first append creates the target)
+        self.side = tempfile.mkdtemp(prefix='c06k-', dir=os.environ.get('TMPDIR')) if link else None
+        self.target = os.path.join(self.side, 'the-real-archive-file') if link else None
         self.prefix = os.path.join(self.dir, 'w')
         self.rec = WARCRecorder(self.prefix, params=WARCRecorderParams(compress=compress, log=False))
         self.warc = self.rec._warc_filename
@@ -564,11 +570,13 @@ class Env:
 
     def reset(self, prior):
         data = self.priors[prior]
-        for p in (self.warc, self.journal):
-            if os.path.exists(p):
+        for p in (self.warc, self.journal, self.target):
+            if p and os.path.lexists(p):
                 os.remove(p)
+        if self.link:
+            os.symlink(self.target, self.warc)
         if data is not None:
-            with open(self.warc, 'wb') as f:
+            with open(self.warc, 'wb') as f:        # through the link, if it is one
                 f.write(data)
         return data
 
@@ -584,13 +592,15 @@ class Env:
 
     def close(self):
         shutil.rmtree(self.dir, ignore_errors=True)
+        if self.side:
+            shutil.rmtree(self.side, ignore_errors=True)
 
 
 _ENVS = {}
 
 
-def get_env(compress, bufsize):
-    key = (bool(compress), bufsize)
+def get_env(compress, bufsize, link=False):
+    key = (bool(compress), bufsize, bool(link))
     if key not in _ENVS:
         _ENVS[key] = Env(*key)
     return _ENVS[key]
@@ -678,7 +688,7 @@ def _run_child(env, record, schedule):
 
 def run_real(case):
     """Returns dict(before, record_bytes, status, trace, archive, journal)."""
-    env = get_env(case['compress'], case.get('bufsize'))
+    env = get_env(case['compress'], case.get('bufsize'), case.get('link', False))
     prior = case.get('prior')
     before = env.reset(prior)
     body = make_body(case['body_len'], case.get('body_seed', 0))
@@ -929,7 +939,7 @@ def phases(trace):
 
 # ------------------------------------------------------------------ one batch: real runs, model, compare
 def case_key(case):
-    return (case['stream'], case.get('logging', 'warning'), case.get('kill_mode', 'fork'), case['compress'], case.get('bufsize'), case.get('prior'), case['body_len'],
+    return (case['stream'], bool(case.get('link')), case.get('logging', 'warning'), case.get('kill_mode', 'fork'), case['compress'], case.get('bufsize'), case.get('prior'), case['body_len'],
             case.get('body_seed', 0), tuple(sorted(sched_of(case).items())), case.get('src_fail'), case.get('src_cls'))
 
 
@@ -949,7 +959,8 @@ def run_cases(ctx, cases):
         real = '%s %s %s %s' % (r['status'], r['text'], enc_optb(r['archive']), enc_optb(r['journal']))
         sch = sched_of(case)
         nfault = len(sch) + (1 if case.get('src_fail') is not None else 0)
-        tags = ['%s:%s' % (case['stream'], r['status']), 'faults=%d' % nfault, 'logging=%s' % case.get('logging', 'warning'),
+        tags = ['%s:%s' % (case['stream'], r['status']), 'faults=%d' % nfault,
+                'archive-name=%s' % (('dangling-symlink' if case.get('prior') is None else 'symlink') if case.get('link') else 'regular'), 'logging=%s' % case.get('logging', 'warning'),
                 'gzip' if case['compress'] else 'plain', 'prior=%s' % case.get('prior')]
         for mark, tag in (('junlink:', 'path:journal-creation-failed'), (':enoent', 'path:rollback-on-absent-archive'),
                           ('rtrunc=', 'path:rollback'), ('jwrite=', None)):
@@ -1008,8 +1019,8 @@ def variants(entry, kinds=('fail', 'die'), rich=True, rot=0, all_classes=False):
 
 
 def base_case(stream, compress, bufsize, prior, body_len, body_seed=0, schedule=None, src_fail=None, kill_mode='fork',
-              logging='warning', src_cls=None):
-    return {'src_cls': src_cls, 'logging': logging, 'kill_mode': kill_mode, 'stream': stream, 'compress': compress, 'bufsize': bufsize, 'prior': prior, 'body_len': body_len,
+              logging='warning', src_cls=None, link=False):
+    return {'link': link, 'src_cls': src_cls, 'logging': logging, 'kill_mode': kill_mode, 'stream': stream, 'compress': compress, 'bufsize': bufsize, 'prior': prior, 'body_len': body_len,
             'body_seed': body_seed, 'schedule': {str(k): list(v) for k, v in (schedule or {}).items()},
             'src_fail': src_fail}
 
@@ -1018,7 +1029,8 @@ def stream_of(schedule):
     return 'kill' if any(a[0] == 'die' for a in schedule.values()) else 'append'
 
 
-def sweep(ctx, compress, bufsize, prior, body_len, body_seed, doubles, rng, multi_kill='fork', all_classes=False):
+def sweep(ctx, compress, bufsize, prior, body_len, body_seed, doubles, rng, multi_kill='fork', all_classes=False,
+          link=False):
     """Fault-free run, then a fault / kill at EVERY primitive, then second faults after every single fault.
     Single kills are always real (forked child, os._exit); `multi_kill='sim'` runs the kills of the
     multi-fault schedules in-process (Die + every later primitive suppressed) -- the quick tier."""
@@ -1029,7 +1041,7 @@ def sweep(ctx, compress, bufsize, prior, body_len, body_seed, doubles, rng, mult
     def mk(sch, src=None, logging=None, src_cls=None):
         km = 'fork' if len(sch) <= 1 else multi_kill
         return base_case(stream_of(sch), compress, bufsize, prior, body_len, body_seed, sch, src, km,
-                         logging or multi_log, src_cls)
+                         logging or multi_log, src_cls, link)
     base = run_cases(ctx, [mk({})])[0]
     n = len(base['trace'])
     singles = []
@@ -1234,6 +1246,7 @@ def _dump_life(path, status, inj):
 def run_life_real(case):
     d = tempfile.mkdtemp(prefix='c06d-', dir=os.environ.get('TMPDIR'))
     tmp = tempfile.mkdtemp(prefix='c06t-', dir=os.environ.get('TMPDIR'))
+    side_box = []
     try:
         ext = ext_of(case['compress'])
         for suffix, k, stale in case['leftovers']:
@@ -1247,6 +1260,18 @@ def run_life_real(case):
             if stale:
                 with builtins.open(os.path.join(d, name + '-wpullinc'), 'wb') as f:
                     f.write(b'wpull-journal-version:1\noffset:%d\n' % (len(good) if stale == 'torn' else 0))
+        if case.get('link'):
+            # every archive NAME of the directory is a symbolic link into another directory; names the run will
+            # create are dangling links (the first open creates their target)
+            side = tempfile.mkdtemp(prefix='c06k-', dir=os.environ.get('TMPDIR'))
+            side_box.append(side)
+            want = ([''] if case['max_size'] is None else ['-00000', '-00001', '-00002', '-meta'])
+            names = {life_prefix(case) + sfx + ext for sfx in want} | {n for n in os.listdir(d) if not n.endswith('-wpullinc')}
+            for i, n in enumerate(sorted(names)):
+                tgt = os.path.join(side, 'real-%d' % i)
+                if os.path.exists(os.path.join(d, n)):
+                    shutil.move(os.path.join(d, n), tgt)
+                os.symlink(tgt, os.path.join(d, n))
         init = dir_snapshot(d)
         schedule = sched_of(case)
         if any(a[0] == 'die' for a in schedule.values()) and case.get('kill_mode', 'fork') == 'fork':
@@ -1287,6 +1312,8 @@ def run_life_real(case):
     finally:
         shutil.rmtree(d, ignore_errors=True)
         shutil.rmtree(tmp, ignore_errors=True)
+        if side_box:
+            shutil.rmtree(side_box[0], ignore_errors=True)
 
 
 def life_steps(r, appending):
@@ -1472,7 +1499,7 @@ def check_life_oracles(ctx, case, r, steps):
 
 
 def life_key(case):
-    return ('life', life_prefix(case), case.get('logging', 'warning'), case.get('kill_mode', 'fork'), case['compress'], case['appending'], case['max_size'], case['log'],
+    return ('life', bool(case.get('link')), life_prefix(case), case.get('logging', 'warning'), case.get('kill_mode', 'fork'), case['compress'], case['appending'], case['max_size'], case['log'],
             tuple(tuple(x) for x in case['leftovers']), tuple(case['records']), tuple(sorted(sched_of(case).items())))
 
 
@@ -1489,7 +1516,7 @@ def run_lives(ctx, cases):
     for case, r, rep, real, steps in zip(cases, results, replies, reals, stepss):
         nfault = len(sched_of(case))
         tags = ['life:%s' % r['status'], 'life:steps=%d' % len(steps), 'life:faults=%d' % nfault,
-                'life:prefix=%s' % life_prefix(case),
+                'life:prefix=%s' % life_prefix(case), 'life:archive-names=%s' % ('symlinks' if case.get('link') else 'regular'),
                 'life:logging=%s' % ('debug(log=True)' if case['log'] else case.get('logging', 'warning'))]
         if steps:
             T = steps[-1]['target']
@@ -1506,19 +1533,19 @@ def run_lives(ctx, cases):
 
 
 def life_case(compress, appending, max_size, log, leftovers, records, schedule=None, kill_mode='fork', logging='warning',
-              prefix=None):
-    return {'prefix': prefix or LIFE_PREFIX, 'stream': 'life', 'logging': logging, 'kill_mode': kill_mode, 'compress': compress, 'appending': appending, 'max_size': max_size,
+              prefix=None, link=False):
+    return {'link': link, 'prefix': prefix or LIFE_PREFIX, 'stream': 'life', 'logging': logging, 'kill_mode': kill_mode, 'compress': compress, 'appending': appending, 'max_size': max_size,
             'log': log, 'leftovers': [list(x) for x in leftovers], 'records': list(records),
             'schedule': {str(k): list(v) for k, v in (schedule or {}).items()}}
 
 
 def sweep_life(ctx, compress, appending, max_size, log, leftovers, records, rng, doubles=0, all_classes=False,
-               prefix=None):
+               prefix=None, link=False):
     """Fault-free life, then OSError and a real kill at EVERY primitive of it (constructor, roll-over, close())."""
     multi_log = rng.choice(['debug', 'warning'])
     rot0 = rng.randrange(len(ERR_CLASSES))
     mk = lambda sch: life_case(compress, appending, max_size, log, leftovers, records, sch, logging=multi_log,
-                               prefix=prefix)
+                               prefix=prefix, link=link)
     base = run_lives(ctx, [mk({})])[0]
     singles = []
     for i, entry in enumerate(base['trace']):
@@ -1598,6 +1625,11 @@ def run_life_stream(ctx, rng, thorough):
     for idx, (prefix, compress, max_size, log) in enumerate(pl if thorough else pl[:3] + rng.sample(pl[3:], 1)):
         sweep_life(ctx, compress, bool(idx % 2), max_size, log, LEFTOVER_SETS[1 if max_size is None else 2], [700, 50], rng,
                    doubles=ctx.scale(10, 60), prefix=prefix)
+    # the KIND of the archive name is a dimension: every archive name a symbolic link into another directory
+    ll = [(False, True, None, False, LEFTOVER_SETS[1]), (True, True, 900, True, LEFTOVER_SETS[2]),
+          (True, False, None, False, LEFTOVER_SETS[1]), (False, False, 900, False, LEFTOVER_SETS[3])]
+    for (compress, appending, max_size, log, lo) in (ll if thorough else ll[:2]):
+        sweep_life(ctx, compress, appending, max_size, log, lo, [700, 50], rng, doubles=ctx.scale(10, 60), link=True)
     # stale journals of every archive name: the run must refuse and leave everything alone
     stale = []
     for compress in (False, True):
@@ -1724,18 +1756,25 @@ def run(ctx):
         for (compress, bufsize, prior, body_len) in configs(thorough):
             small = body_len <= 1500
             if thorough:
-                doubles = 'all' if (body_len <= 200 and prior in (None, 2)) else 300
+                doubles = 'all' if (body_len == 0 and prior in (None, 2)) else (1200 if (body_len <= 200 and prior in (None, 2)) else 300)
             else:
                 doubles = ctx.scale(100, 100) if small else 0
             sweep(ctx, compress, bufsize, prior, body_len, rng.randrange(1000), doubles, rng,
                   multi_kill='fork' if thorough else 'sim', all_classes=thorough)
+        # the archive name is a symbolic link (to a file in another directory; dangling when the archive is absent)
+        lk = [(False, None, 2, 200), (True, None, 3, 9000), (False, 64, None, 200), (True, 64, None, 0)]
+        if thorough:
+            lk += [(c, b, p, 200) for c in (False, True) for b in (None, 64) for p in (None, 1, 3)]
+        for (compress, bufsize, prior, body_len) in lk:
+            sweep(ctx, compress, bufsize, prior, body_len, rng.randrange(1000), ctx.scale(40, 100), rng,
+                  multi_kill='fork' if thorough else 'sim', link=True)
         run_startup(ctx, gen_startup(rng, ctx.scale(150, 3000)))
         run_life_stream(ctx, ctx.subrng('life'), thorough)
         ctx.sample({'stream': 'append', 'example': base_case('append', True, 64, 2, 200, 1, {7: ('fail', 3)})})
         ctx.sample({'stream': 'kill', 'example': base_case('kill', False, None, 3, 9000, 0, {6: ('die', 100)})})
         ctx.note('fault_positions', 'every raw primitive of the fault-free run of every configuration gets OSError and a '
                  'kill (writes: 5 partial amounts); second faults at every later primitive: %s'
-                 % ('exhaustive for bodies <= 200 bytes with no / 2 earlier records, 300 per other configuration; all kills real'
+                 % ('exhaustive for empty bodies with no / 2 earlier records, 1200 sampled for 200-byte bodies there, 300 per other configuration; all kills real'
                     if thorough else 'sampled (100 per configuration), kills of multi-fault schedules simulated in-process'))
         ctx.exhaustive = False
     finally:
